@@ -459,3 +459,525 @@ Proof.
   destruct (PositiveMap.find q m) as [[j' v']|]; [|discriminate].
   apply andb_true_iff in G as [G _]. apply Nat.eqb_eq in G. subst j'. apply Nat.leb_le in F. lia.
 Qed.
+
+(* ------------------------------------------------------------------ *)
+(* characters                                                          *)
+(* ------------------------------------------------------------------ *)
+Lemma charset_ok : forallb char_ok charset = true. Proof. reflexivity. Qed.
+Lemma charset_lower : forallb (fun c => beqb (to_lower c) c) charset = true. Proof. reflexivity. Qed.
+Lemma charset_no_sep : forallb (fun c => negb (beqb c sep)) charset = true. Proof. reflexivity. Qed.
+Lemma charset_index :
+  forallb (fun i => match nth_opt charset i with
+                    | Some c => match index_of c charset 0 with Some j => i =? j | None => false end
+                    | None => false
+                    end) (map N.of_nat (seq 0 32)) = true.
+Proof. reflexivity. Qed.
+
+Lemma nth_opt_In {A} (l : list A) : forall i c, nth_opt l i = Some c -> In c l.
+Proof.
+  induction l as [|a l IH]; intros i c H; cbn in H; [discriminate|].
+  destruct (i =? 0); [inversion H; left; reflexivity | right; eapply IH; exact H].
+Qed.
+
+Lemma nth_opt_lt {A} (l : list A) : forall i c, nth_opt l i = Some c -> i < N.of_nat (length l).
+Proof.
+  induction l as [|a l IH]; intros i c H; cbn [nth_opt] in H; [discriminate|].
+  cbn [length]. destruct (N.eqb_spec i 0) as [->|Hi]; [lia|].
+  apply IH in H. lia.
+Qed.
+
+Lemma charset_prop (P : byte -> bool) i c : forallb P charset = true -> nth_opt charset i = Some c -> P c = true.
+Proof. intros F H. rewrite forallb_forall in F. apply F. eapply nth_opt_In; exact H. Qed.
+
+Lemma charset_index_of i c : nth_opt charset i = Some c -> index_of c charset 0 = Some i.
+Proof.
+  intro H. pose proof (nth_opt_lt _ _ _ H) as L. rewrite charset_length in L.
+  pose proof charset_index as F. rewrite forallb_forall in F.
+  specialize (F i). rewrite H in F.
+  assert (Hin : In i (map N.of_nat (seq 0 32))).
+  { apply in_map_iff. exists (N.to_nat i). split; [lia | apply in_seq; lia]. }
+  specialize (F Hin). destruct (index_of c charset 0) as [j|]; [|discriminate].
+  apply N.eqb_eq in F. congruence.
+Qed.
+
+Lemma to_chars_facts : forall syms cs, to_chars syms = Some cs ->
+  length cs = length syms /\ to_bytes cs = Some syms /\
+  Forall (fun b => n8 b < 32) syms /\
+  forallb char_ok cs = true /\ map to_lower cs = cs /\ Forall (fun c => beqb c sep = false) cs.
+Proof.
+  induction syms as [|b syms IH]; intros cs H; cbn [to_chars] in H.
+  - inversion H; subst. cbn. repeat split; constructor.
+  - destruct (nth_opt charset (n8 b)) as [c|] eqn:E; [|discriminate].
+    destruct (to_chars syms) as [cs'|] eqn:E'; [|discriminate]. inversion H; subst cs.
+    destruct (IH cs' eq_refl) as (L & TB & FB & OK & LO & NS).
+    pose proof (nth_opt_lt _ _ _ E) as Lt. rewrite charset_length in Lt.
+    repeat split.
+    + cbn. rewrite L. reflexivity.
+    + cbn [to_bytes]. rewrite (charset_index_of _ _ E), TB, b8_n8. reflexivity.
+    + constructor; [change (N.of_nat 32) with 32 in Lt; exact Lt | exact FB].
+    + cbn [forallb]. rewrite (charset_prop char_ok _ _ charset_ok E), OK. reflexivity.
+    + cbn [map]. rewrite LO. f_equal. apply beqb_eq. exact (charset_prop _ _ _ charset_lower E).
+    + constructor; [|exact NS]. pose proof (charset_prop _ _ _ charset_no_sep E) as Q. cbv beta in Q.
+      destruct (beqb c sep); [discriminate | reflexivity].
+Qed.
+
+Lemma last_index_from_nosep c : forall s i acc, Forall (fun x => beqb x c = false) s ->
+  last_index_from c s i acc = acc.
+Proof.
+  induction s as [|x s IH]; intros i acc F; cbn [last_index_from]; [reflexivity|].
+  inversion F as [|x' s' Hx F']; subst. rewrite Hx. apply IH. exact F'.
+Qed.
+
+Lemma last_index_from_app c : forall a b i acc,
+  last_index_from c (a ++ b) i acc = last_index_from c b (i + length a) (last_index_from c a i acc).
+Proof.
+  induction a as [|x a IH]; intros b i acc; cbn [app last_index_from length].
+  - rewrite Nat.add_0_r. reflexivity.
+  - rewrite IH. f_equal. lia.
+Qed.
+
+Lemma last_index_canon hrp cs : Forall (fun c => beqb c sep = false) cs ->
+  last_index sep (hrp ++ sep :: cs) = Some (length hrp).
+Proof.
+  intro F. unfold last_index. rewrite last_index_from_app. cbn [last_index_from].
+  replace (beqb sep sep) with true by reflexivity. apply last_index_from_nosep. exact F.
+Qed.
+
+(* ------------------------------------------------------------------ *)
+(* Decode on strings of the form hrp ++ "1" ++ chars(symbols)          *)
+(* ------------------------------------------------------------------ *)
+Definition pre (hrp : bytes) (n : nat) : bool :=
+  negb ((length hrp + 1 + n <? 8)%nat || (1000 <? length hrp + 1 + n)%nat) &&
+  forallb char_ok hrp && negb ((length hrp <? 1)%nat || (n <? 12)%nat).
+
+Definition decode_spec (hrp syms : bytes) : dres :=
+  if negb (pre hrp (length syms)) then DErr else
+  if (length syms =? 12)%nat then DPanic else
+  match syms with
+  | [] => DPanic
+  | v :: _ =>
+      match encoding_of_version v with
+      | None => DErr
+      | Some enc => if polymod (hrp_expand hrp ++ ints syms) =? enc
+                    then DOk hrp (firstn (length syms - 12) syms) else DErr
+      end
+  end.
+
+Lemma bytes_eqb_refl a : bytes_eqb a a = true.
+Proof. apply bytes_eqb_eq. reflexivity. Qed.
+
+Lemma decode_generic_canon hrp syms cs : to_chars syms = Some cs -> map to_lower hrp = hrp ->
+  decode_generic (hrp ++ sep :: cs) =
+    if negb (pre hrp (length syms)) then GErr
+    else GOk hrp (firstn (length syms - 12) syms) (skipn (length syms - 12) syms).
+Proof.
+  intros TC LH. destruct (to_chars_facts _ _ TC) as (L & TB & FB & OK & LO & NS).
+  unfold decode_generic, pre.
+  assert (Len : length (hrp ++ sep :: cs) = (length hrp + 1 + length syms)%nat).
+  { rewrite app_length. cbn [length]. rewrite L. lia. }
+  rewrite Len.
+  destruct ((length hrp + 1 + length syms <? 8)%nat || (1000 <? length hrp + 1 + length syms)%nat) eqn:E1;
+    [reflexivity|].
+  rewrite forallb_app. cbn [forallb]. rewrite OK. replace (char_ok sep) with true by reflexivity.
+  rewrite andb_true_r. cbn [negb andb].
+  destruct (forallb char_ok hrp) eqn:E2; [|reflexivity]. cbn [negb andb].
+  assert (Low : map to_lower (hrp ++ sep :: cs) = hrp ++ sep :: cs).
+  { rewrite map_app. cbn [map]. rewrite LH, LO. reflexivity. }
+  rewrite Low, bytes_eqb_refl. cbn [negb andb].
+  rewrite (last_index_canon hrp cs NS). rewrite Len.
+  replace (length hrp + 1 + length syms <? length hrp + 13)%nat with (length syms <? 12)%nat
+    by (destruct (Nat.ltb_spec (length syms) 12), (Nat.ltb_spec (length hrp + 1 + length syms) (length hrp + 13)); lia).
+  destruct ((length hrp <? 1)%nat || (length syms <? 12)%nat) eqn:E3; [reflexivity|]. cbn [negb].
+  rewrite firstn_app, Nat.sub_diag, firstn_all. cbn [firstn]. rewrite app_nil_r.
+  replace (length hrp + 1)%nat with (length (hrp ++ [sep])) by (rewrite app_length; reflexivity).
+  replace (hrp ++ sep :: cs) with ((hrp ++ [sep]) ++ cs) by (rewrite <- app_assoc; reflexivity).
+  rewrite skipn_app, Nat.sub_diag, skipn_all. cbn [skipn app]. rewrite TB.
+  apply orb_false_iff in E3 as [_ E3]. rewrite E3. reflexivity.
+Qed.
+
+Theorem decode_canon hrp syms cs : to_chars syms = Some cs -> map to_lower hrp = hrp ->
+  decode (hrp ++ sep :: cs) = decode_spec hrp syms.
+Proof.
+  intros TC LH. unfold decode, decode_spec. rewrite (decode_generic_canon hrp syms cs TC LH).
+  destruct (negb (pre hrp (length syms))) eqn:P; [reflexivity|].
+  assert (L12 : (12 <= length syms)%nat).
+  { unfold pre in P. apply negb_false_iff in P. apply andb_true_iff in P as [_ P].
+    apply negb_true_iff, orb_false_iff in P as [_ P]. apply Nat.ltb_ge in P. exact P. }
+  destruct (Nat.eqb_spec (length syms) 12) as [E|E].
+  - rewrite E, Nat.sub_diag. reflexivity.
+  - destruct syms as [|v r]; [cbn in L12; lia|].
+    replace (length (v :: r) - 12)%nat with (S (length r - 12)) by (cbn [length] in *; lia).
+    cbn [firstn]. destruct (encoding_of_version v) as [enc|]; [|reflexivity].
+    unfold verify_checksum.
+    replace ((v :: firstn (length r - 12) r) ++ skipn (S (length r - 12)) (v :: r)) with (v :: r); [reflexivity|].
+    cbn [skipn app]. rewrite firstn_skipn. reflexivity.
+Qed.
+
+(* ------------------------------------------------------------------ *)
+(* detection of one and two substituted symbols                        *)
+(* ------------------------------------------------------------------ *)
+Lemma lxor_in_vals a b : a < 32 -> b < 32 -> a <> b -> In (N.lxor a b) vals.
+Proof.
+  intros Ha Hb Hab. apply in_vals.
+  assert (N.lxor a b < 2 ^ 5) by (apply lxor_lt_pow2; assumption).
+  assert (N.lxor a b <> 0) by (intro E; apply N.lxor_eq in E; contradiction).
+  change (2 ^ 5) with 32 in *. lia.
+Qed.
+
+Lemma encoding_inv v e : encoding_of_version v = Some e ->
+  (n8 v = 0 /\ e = BLECH32) \/ (n8 v = 1 /\ e = BLECH32M).
+Proof.
+  unfold encoding_of_version. destruct (N.eqb_spec (n8 v) 0) as [E0|E0].
+  - intro H; inversion H. left; split; [assumption | reflexivity].
+  - destruct (N.eqb_spec (n8 v) 1) as [E1|E1]; [|discriminate].
+    intro H; inversion H. right; split; [assumption | reflexivity].
+Qed.
+
+Lemma BM_sym : N.lxor BLECH32M BLECH32 = BM.
+Proof. apply N.lxor_comm. Qed.
+
+(* the rejection argument shared by all substitution theorems: the polymod of the
+   changed string is the old one xor a syndrome S; S is non-zero, and differs from
+   BLECH32 xor BLECH32M whenever the version symbol changed *)
+Lemma reject_by_syndrome hrp hrp' v r v' r' data Sy :
+  decode_spec hrp (v :: r) = DOk hrp data ->
+  length r' = length r ->
+  pre hrp' (length (v' :: r')) = true ->
+  polymod (hrp_expand hrp' ++ ints (v' :: r')) = N.lxor (polymod (hrp_expand hrp ++ ints (v :: r))) Sy ->
+  Sy <> 0 -> (n8 v <= 1 -> n8 v' <= 1 -> n8 v' <> n8 v -> Sy <> BM) ->
+  decode_spec hrp' (v' :: r') = DErr.
+Proof.
+  intros D L P' PM S0 SBM. unfold decode_spec in *.
+  rewrite P'. cbn [negb].
+  destruct (negb (pre hrp (length (v :: r)))); [discriminate|].
+  cbn [length] in *. rewrite L.
+  destruct (S (length r) =? 12)%nat; [discriminate|].
+  destruct (encoding_of_version v) as [e|] eqn:Ev; [|discriminate].
+  destruct (N.eqb_spec (polymod (hrp_expand hrp ++ ints (v :: r))) e) as [Ee|Ee]; [|discriminate].
+  destruct (encoding_of_version v') as [e'|] eqn:Ev'; [|reflexivity].
+  rewrite PM, Ee.
+  destruct (N.eqb_spec (N.lxor e Sy) e') as [Eq|Eq]; [exfalso|reflexivity].
+  apply encoding_inv in Ev, Ev'.
+  destruct Ev as [[Hv ->]|[Hv ->]], Ev' as [[Hv' ->]|[Hv' ->]].
+  - apply lxor_self_inv in Eq. contradiction.
+  - apply SBM; try lia. apply (lxor_eq_l BLECH32). rewrite Eq. unfold BM.
+    rewrite <- N.lxor_assoc, N.lxor_nilpotent, N.lxor_0_l. reflexivity.
+  - apply SBM; try lia. apply (lxor_eq_l BLECH32M). rewrite Eq, <- BM_sym. unfold BM.
+    rewrite <- N.lxor_assoc, N.lxor_nilpotent, N.lxor_0_l. reflexivity.
+  - apply lxor_self_inv in Eq. contradiction.
+Qed.
+
+Lemma pre_bound hrp n : pre hrp n = true -> (12 <= n /\ n < NMAX)%nat.
+Proof.
+  rewrite NMAX_eq. unfold pre. intro P. apply andb_true_iff in P as [P P3]. apply andb_true_iff in P as [P1 _].
+  apply negb_true_iff, orb_false_iff in P1 as [_ P1]. apply Nat.ltb_ge in P1.
+  apply negb_true_iff, orb_false_iff in P3 as [_ P3]. apply Nat.ltb_ge in P3. lia.
+Qed.
+
+Lemma decode_spec_ok_pre hrp syms data : decode_spec hrp syms = DOk hrp data ->
+  pre hrp (length syms) = true /\ exists v r, syms = v :: r.
+Proof.
+  unfold decode_spec. destruct (pre hrp (length syms)); [|discriminate]. cbn [negb].
+  destruct (length syms =? 12)%nat; [discriminate|]. destruct syms as [|v r]; [discriminate|].
+  intros _. split; [reflexivity | exists v, r; reflexivity].
+Qed.
+
+Lemma polymod_upd hrp syms i x y : nth_error syms i = Some y ->
+  polymod (hrp_expand hrp ++ ints (upd syms i x)) =
+  N.lxor (polymod (hrp_expand hrp ++ ints syms)) (shift (length syms - 1 - i) (N.lxor (n8 x) (n8 y))).
+Proof.
+  intro H. unfold polymod. rewrite !polymod_from_app. unfold ints. rewrite upd_map.
+  rewrite (polymod_from_upd _ _ i (n8 x) (n8 y)) by (rewrite nth_error_map, H; reflexivity).
+  rewrite map_length. reflexivity.
+Qed.
+
+Lemma sym_lt syms i y : Forall (fun b => n8 b < 32) syms -> nth_error syms i = Some y -> n8 y < 32.
+Proof. intros F H. rewrite Forall_forall in F. apply F. eapply nth_error_In; exact H. Qed.
+
+Lemma to_chars_sym_lt syms cs : to_chars syms = Some cs -> Forall (fun b => n8 b < 32) syms.
+Proof. intro H. apply to_chars_facts in H. tauto. Qed.
+
+Lemma upd_hd {A} (v : A) r i x : i <> O -> exists r', upd (v :: r) i x = v :: r' /\ length r' = length r.
+Proof. destruct i as [|i]; [congruence|]. intros _. exists (upd r i x). split; [reflexivity | apply upd_length]. Qed.
+
+Lemma nth_error_upd_same {A} (l : list A) : forall i x, (i < length l)%nat -> nth_error (upd l i x) i = Some x.
+Proof. induction l as [|a l IH]; intros [|i] x H; cbn in *; try lia; [reflexivity | apply IH; lia]. Qed.
+
+Lemma lxor_01 a b : a <= 1 -> b <= 1 -> a <> b -> N.lxor a b = 1.
+Proof.
+  intros Ha Hb Hab. assert (Ca : a = 0 \/ a = 1) by lia. assert (Cb : b = 0 \/ b = 1) by lia.
+  destruct Ca, Cb; subst; try congruence; reflexivity.
+Qed.
+
+(* ONE substituted symbol of the data part (version symbol, payload or checksum) *)
+Theorem detects_one hrp syms cs data i x y cs' :
+  map to_lower hrp = hrp -> to_chars syms = Some cs ->
+  decode (hrp ++ sep :: cs) = DOk hrp data ->
+  nth_error syms i = Some y -> x <> y -> to_chars (upd syms i x) = Some cs' ->
+  decode (hrp ++ sep :: cs') = DErr.
+Proof.
+  intros LH TC D Hy Hxy TC'.
+  rewrite (decode_canon _ _ _ TC LH) in D. rewrite (decode_canon _ _ _ TC' LH).
+  destruct (decode_spec_ok_pre _ _ _ D) as [P [v [r ->]]].
+  pose proof (pre_bound _ _ P) as [B12 BN].
+  pose proof (to_chars_sym_lt _ _ TC) as F. pose proof (to_chars_sym_lt _ _ TC') as F'.
+  assert (Hi : (i < length (v :: r))%nat) by (apply nth_error_Some; congruence).
+  assert (Xlt : n8 x < 32) by (apply (sym_lt _ i x F'), nth_error_upd_same; exact Hi).
+  pose proof (sym_lt _ _ _ F Hy) as Ylt.
+  assert (Ne : n8 x <> n8 y) by (intro E; apply n8_inj in E; contradiction).
+  pose proof (lxor_in_vals _ _ Xlt Ylt Ne) as V.
+  pose proof (polymod_upd hrp (v :: r) i x y Hy) as PM.
+  assert (S0 : shift (length (v :: r) - 1 - i) (N.lxor (n8 x) (n8 y)) <> 0)
+    by (apply syndrome_nonzero; [lia | exact V]).
+  destruct i as [|i].
+  - (* the version symbol itself *)
+    cbn [upd] in *. cbn [nth_error] in Hy. inversion Hy; subst y.
+    eapply reject_by_syndrome; [exact D | reflexivity | exact P | exact PM | exact S0 |].
+    intros Hv Hx Hne. rewrite (lxor_01 _ _ Hx Hv Hne). apply flip_not_BM. cbn [length] in *. lia.
+  - cbn [upd] in *.
+    eapply reject_by_syndrome; [exact D | apply upd_length | | exact PM | exact S0 |].
+    + cbn [length] in *. rewrite upd_length. exact P.
+    + intros _ _ Hne. congruence.
+Qed.
+
+Lemma pair_nonzero d1 d2 e1 e2 : (d1 < NMAX)%nat -> (d2 < NMAX)%nat -> d1 <> d2 -> In e1 vals -> In e2 vals ->
+  N.lxor (shift d1 e1) (shift d2 e2) <> 0.
+Proof.
+  intros H1 H2 Hd V1 V2 E. apply N.lxor_eq in E.
+  destruct (syndromes_distinct _ _ _ _ H1 H2 V1 V2 E) as [Ed _]. contradiction.
+Qed.
+
+(* TWO substituted symbols of the data part, at different positions *)
+Theorem detects_two hrp syms cs data i1 x1 y1 i2 x2 y2 cs' :
+  map to_lower hrp = hrp -> to_chars syms = Some cs ->
+  decode (hrp ++ sep :: cs) = DOk hrp data ->
+  i1 <> i2 ->
+  nth_error syms i1 = Some y1 -> x1 <> y1 ->
+  nth_error syms i2 = Some y2 -> x2 <> y2 ->
+  to_chars (upd (upd syms i1 x1) i2 x2) = Some cs' ->
+  decode (hrp ++ sep :: cs') = DErr.
+Proof.
+  intros LH TC D Hi12 Hy1 Hx1 Hy2 Hx2 TC'.
+  rewrite (decode_canon _ _ _ TC LH) in D. rewrite (decode_canon _ _ _ TC' LH).
+  destruct (decode_spec_ok_pre _ _ _ D) as [P [v [r ->]]].
+  pose proof (pre_bound _ _ P) as [B12 BN].
+  pose proof (to_chars_sym_lt _ _ TC) as F. pose proof (to_chars_sym_lt _ _ TC') as F'.
+  assert (Hi1 : (i1 < length (v :: r))%nat) by (apply nth_error_Some; congruence).
+  assert (Hi2 : (i2 < length (v :: r))%nat) by (apply nth_error_Some; congruence).
+  assert (X2lt : n8 x2 < 32).
+  { apply (sym_lt _ i2 x2 F'), nth_error_upd_same. rewrite upd_length. exact Hi2. }
+  assert (X1lt : n8 x1 < 32).
+  { apply (sym_lt _ i1 x1 F'). rewrite nth_error_upd_other by congruence. apply nth_error_upd_same. exact Hi1. }
+  pose proof (sym_lt _ _ _ F Hy1) as Y1lt. pose proof (sym_lt _ _ _ F Hy2) as Y2lt.
+  assert (Ne1 : n8 x1 <> n8 y1) by (intro E; apply n8_inj in E; contradiction).
+  assert (Ne2 : n8 x2 <> n8 y2) by (intro E; apply n8_inj in E; contradiction).
+  pose proof (lxor_in_vals _ _ X1lt Y1lt Ne1) as V1. pose proof (lxor_in_vals _ _ X2lt Y2lt Ne2) as V2.
+  assert (Hy2' : nth_error (upd (v :: r) i1 x1) i2 = Some y2) by (rewrite nth_error_upd_other by exact Hi12; exact Hy2).
+  pose proof (polymod_upd hrp (upd (v :: r) i1 x1) i2 x2 y2 Hy2') as PM2.
+  rewrite (polymod_upd hrp (v :: r) i1 x1 y1 Hy1), upd_length, N.lxor_assoc in PM2.
+  set (d1 := (length (v :: r) - 1 - i1)%nat) in *. set (d2 := (length (v :: r) - 1 - i2)%nat) in *.
+  assert (D1 : (d1 < NMAX)%nat) by (unfold d1; lia). assert (D2 : (d2 < NMAX)%nat) by (unfold d2; lia).
+  assert (D12 : d1 <> d2) by (unfold d1, d2; lia).
+  pose proof (pair_nonzero d1 d2 _ _ D1 D2 D12 V1 V2) as S0.
+  assert (L2 : length (upd (upd (v :: r) i1 x1) i2 x2) = length (v :: r)) by (rewrite !upd_length; reflexivity).
+  destruct i1 as [|i1]; destruct i2 as [|i2]; try congruence.
+  - (* first substitution hits the version symbol *)
+    cbn [upd] in *. cbn [nth_error] in Hy1. inversion Hy1; subst y1.
+    eapply reject_by_syndrome; [exact D | apply upd_length | | exact PM2 | exact S0 |].
+    + cbn [length] in *. rewrite upd_length. exact P.
+    + intros Hv Hx Hne. rewrite (lxor_01 _ _ Hx Hv Hne).
+      apply flip_pair_not_BM; [exact D1 | clear -Hi1 Hi2; subst d1 d2; cbn [length] in *; lia | exact V2].
+  - (* second substitution hits the version symbol *)
+    cbn [upd] in *. cbn [nth_error] in Hy2. inversion Hy2; subst y2.
+    eapply reject_by_syndrome; [exact D | apply upd_length | | exact PM2 | exact S0 |].
+    + cbn [length] in *. rewrite upd_length. exact P.
+    + intros Hv Hx Hne. rewrite (lxor_01 _ _ Hx Hv Hne), N.lxor_comm.
+      apply flip_pair_not_BM; [exact D2 | clear -Hi1 Hi2; subst d1 d2; cbn [length] in *; lia | exact V1].
+  - cbn [upd] in *.
+    eapply reject_by_syndrome; [exact D | | | exact PM2 | exact S0 |].
+    + rewrite !upd_length. reflexivity.
+    + cbn [length] in *. rewrite !upd_length. exact P.
+    + intros _ _ Hne. congruence.
+Qed.
+
+(* ------------------------------------------------------------------ *)
+(* Encode / Decode agree; the constant is selected by the version      *)
+(* ------------------------------------------------------------------ *)
+Lemma nth_opt_some {A} (l : list A) : forall i, i < N.of_nat (length l) -> exists c, nth_opt l i = Some c.
+Proof.
+  induction l as [|a l IH]; intros i H; cbn [length] in H; [lia|]. cbn [nth_opt].
+  destruct (N.eqb_spec i 0); [eexists; reflexivity|]. apply IH. lia.
+Qed.
+
+Lemma to_chars_total : forall syms, Forall (fun b => n8 b < 32) syms -> exists cs, to_chars syms = Some cs.
+Proof.
+  induction syms as [|b syms IH]; intro F; [exists []; reflexivity|].
+  inversion F as [|b' s' Hb F']; subst. destruct (IH F') as [cs E].
+  destruct (nth_opt_some charset (n8 b)) as [c Ec]; [rewrite charset_length; exact Hb|].
+  exists (c :: cs). cbn [to_chars]. rewrite Ec, E. reflexivity.
+Qed.
+
+Lemma checksum_symbols_lt X : Forall (fun b => n8 b < 32) (checksum_symbols X).
+Proof.
+  unfold checksum_symbols. apply Forall_forall. intros b Hb. apply in_map_iff in Hb as [i [<- _]].
+  rewrite n8_b8. change 31 with (N.ones 5). rewrite N.land_ones.
+  assert (N.shiftr X (5 * (11 - i)) mod 2 ^ 5 < 2 ^ 5) by (apply N.mod_lt; discriminate).
+  change (2 ^ 5) with 32 in *. lia.
+Qed.
+
+Lemma checksum_length hrp data enc : length (create_checksum hrp data enc) = 12%nat.
+Proof. reflexivity. Qed.
+
+Lemma polymod_data_checksum hrp data enc : enc < 2 ^ 60 ->
+  polymod (hrp_expand hrp ++ ints (data ++ create_checksum hrp data enc)) = enc.
+Proof.
+  intro He. pose proof (checksum_correct hrp data enc He) as H. unfold verify_checksum in H.
+  apply N.eqb_eq in H. exact H.
+Qed.
+
+(* Encode then Decode returns the data (version symbol 0 with BLECH32, 1 with BLECH32M) *)
+Theorem encode_decode hrp v r e :
+  map to_lower hrp = hrp -> pre hrp (length (v :: r) + 12) = true ->
+  Forall (fun b => n8 b < 32) (v :: r) -> encoding_of_version v = Some e ->
+  exists s, encode hrp (v :: r) e = Some s /\ decode s = DOk hrp (v :: r).
+Proof.
+  intros LH P F Ev. unfold encode.
+  assert (He : e < 2 ^ 60) by (apply encoding_inv in Ev as [[_ ->]|[_ ->]]; apply consts_bound).
+  destruct (to_chars_total ((v :: r) ++ create_checksum hrp (v :: r) e)) as [cs TC].
+  { apply Forall_app; split; [exact F | apply checksum_symbols_lt]. }
+  rewrite TC. eexists; split; [reflexivity|].
+  rewrite (decode_canon _ _ _ TC LH). unfold decode_spec.
+  rewrite app_length, checksum_length, P. cbn [negb].
+  destruct (Nat.eqb_spec (length (v :: r) + 12) 12) as [E|_]; [cbn [length] in E; lia|].
+  cbn [app]. rewrite Ev. change (v :: r ++ create_checksum hrp (v :: r) e) with ((v :: r) ++ create_checksum hrp (v :: r) e).
+  rewrite polymod_data_checksum by exact He. rewrite N.eqb_refl.
+  rewrite Nat.add_sub, <- (Nat.add_0_r (length (v :: r))), firstn_app_2. cbn [firstn]. rewrite app_nil_r. reflexivity.
+Qed.
+
+(* a checksum computed with the constant of the other version is never accepted *)
+Theorem wrong_constant_rejected hrp v r e e' cs :
+  map to_lower hrp = hrp ->
+  encoding_of_version v = Some e -> (e' = BLECH32 \/ e' = BLECH32M) -> e' <> e ->
+  to_chars ((v :: r) ++ create_checksum hrp (v :: r) e') = Some cs ->
+  decode (hrp ++ sep :: cs) = DErr.
+Proof.
+  intros LH Ev He' Hne TC. rewrite (decode_canon _ _ _ TC LH). unfold decode_spec.
+  destruct (negb (pre hrp _)); [reflexivity|].
+  rewrite app_length, checksum_length.
+  destruct (Nat.eqb_spec (length (v :: r) + 12) 12) as [E|_]; [cbn [length] in E; lia|].
+  cbn [app]. rewrite Ev. change (v :: r ++ create_checksum hrp (v :: r) e') with ((v :: r) ++ create_checksum hrp (v :: r) e').
+  rewrite polymod_data_checksum by (destruct He' as [-> | ->]; apply consts_bound).
+  destruct (N.eqb_spec e' e); [contradiction | reflexivity].
+Qed.
+
+(* whatever Decode accepts starts with version 0 or 1 and its polymod is the constant of that version *)
+Theorem constant_selected_by_version s hrp data : decode s = DOk hrp data ->
+  exists v r chk, data = v :: r /\ length chk = 12%nat /\
+    ((n8 v = 0 /\ polymod (hrp_expand hrp ++ ints (data ++ chk)) = BLECH32) \/
+     (n8 v = 1 /\ polymod (hrp_expand hrp ++ ints (data ++ chk)) = BLECH32M)).
+Proof.
+  unfold decode. destruct (decode_generic s) as [h d c| |] eqn:G; try discriminate.
+  destruct d as [|v r]; [discriminate|].
+  destruct (encoding_of_version v) as [e|] eqn:Ev; [|discriminate].
+  unfold verify_checksum. destruct (N.eqb_spec (polymod (hrp_expand h ++ ints ((v :: r) ++ c))) e) as [E|E]; [|discriminate].
+  intro H; inversion H; subst h data. exists v, r, c. split; [reflexivity|]. split.
+  - unfold decode_generic in G.
+    repeat match type of G with (if ?b then _ else _) = _ => destruct b; [discriminate|] end.
+    destruct (last_index sep (map to_lower s)) as [one|]; [|discriminate].
+    repeat match type of G with (if ?b then _ else _) = _ => destruct b; [discriminate|] end.
+    destruct (to_bytes _) as [dec|]; [|discriminate].
+    destruct (Nat.ltb_spec (length dec) 12) as [L|L]; [discriminate|].
+    inversion G. rewrite skipn_length. lia.
+  - apply encoding_inv in Ev as [[Hv ->]|[Hv ->]]; [left | right]; split; assumption.
+Qed.
+
+(* ------------------------------------------------------------------ *)
+(* case rules                                                          *)
+(* ------------------------------------------------------------------ *)
+Definition len_bad (s : bytes) : bool := ((length s <? 8) || (1000 <? length s))%nat.
+Definition case_bad (s : bytes) : bool :=
+  negb (bytes_eqb s (map to_lower s)) && negb (bytes_eqb s (map to_upper s)).
+Definition dg_rest (lower : bytes) : gres :=
+  match last_index sep lower with
+  | None => GErr
+  | Some one =>
+      if ((one <? 1) || (length lower <? one + 13))%nat then GErr else
+      match to_bytes (skipn (one + 1) lower) with
+      | None => GErr
+      | Some decoded =>
+          if (length decoded <? 12)%nat then GPanic else
+          GOk (firstn one lower) (firstn (length decoded - 12) decoded) (skipn (length decoded - 12) decoded)
+      end
+  end.
+
+Lemma decode_generic_unfold s : decode_generic s =
+  if len_bad s then GErr else if negb (forallb char_ok s) then GErr else
+  if case_bad s then GErr else dg_rest (map to_lower s).
+Proof. reflexivity. Qed.
+
+Lemma to_lower_upper c : to_lower (to_upper c) = to_lower c. Proof. destruct c; reflexivity. Qed.
+Lemma to_lower_idem c : to_lower (to_lower c) = to_lower c. Proof. destruct c; reflexivity. Qed.
+Lemma to_upper_idem c : to_upper (to_upper c) = to_upper c. Proof. destruct c; reflexivity. Qed.
+Lemma char_ok_upper c : char_ok (to_upper c) = char_ok c. Proof. destruct c; reflexivity. Qed.
+Lemma char_ok_lower c : char_ok (to_lower c) = char_ok c. Proof. destruct c; reflexivity. Qed.
+
+Lemma forallb_map {A B} (f : A -> B) (p : B -> bool) l : forallb p (map f l) = forallb (fun x => p (f x)) l.
+Proof. induction l as [|a l IH]; cbn; [reflexivity | rewrite IH; reflexivity]. Qed.
+
+Lemma decode_generic_lower s : decode_generic (map to_lower s) =
+  if len_bad s then GErr else if negb (forallb char_ok s) then GErr else dg_rest (map to_lower s).
+Proof.
+  rewrite decode_generic_unfold. unfold len_bad, case_bad. rewrite map_length.
+  rewrite forallb_map, (forallb_ext _ char_ok char_ok_lower) by idtac.
+  rewrite !map_map, (map_ext _ _ to_lower_idem), bytes_eqb_refl. reflexivity.
+Qed.
+
+Lemma decode_generic_upper s : decode_generic (map to_upper s) =
+  if len_bad s then GErr else if negb (forallb char_ok s) then GErr else dg_rest (map to_lower s).
+Proof.
+  rewrite decode_generic_unfold. unfold len_bad, case_bad. rewrite map_length.
+  rewrite forallb_map, (forallb_ext _ char_ok char_ok_upper) by idtac.
+  rewrite !map_map, (map_ext _ _ to_upper_idem), (map_ext _ _ to_lower_upper), bytes_eqb_refl, andb_false_r. reflexivity.
+Qed.
+
+(* the upper-case and the lower-case spelling of ANY string decode alike *)
+Theorem case_insensitive s : decode (map to_upper s) = decode (map to_lower s).
+Proof. unfold decode. rewrite decode_generic_upper, decode_generic_lower. reflexivity. Qed.
+
+(* and an accepted string decodes like both of its single-case spellings *)
+Theorem accepted_case_spellings s hrp data : decode s = DOk hrp data ->
+  decode (map to_lower s) = DOk hrp data /\ decode (map to_upper s) = DOk hrp data.
+Proof.
+  intro H. rewrite case_insensitive. assert (E : decode (map to_lower s) = decode s); [|rewrite E; tauto].
+  unfold decode in *. rewrite decode_generic_lower. rewrite decode_generic_unfold in *.
+  destruct (len_bad s); [discriminate|]. destruct (negb (forallb char_ok s)); [discriminate|].
+  destruct (case_bad s); [discriminate | reflexivity].
+Qed.
+
+Definition is_lower_letter (c : byte) : bool := (97 <=? n8 c) && (n8 c <=? 122).
+Definition is_upper_letter (c : byte) : bool := (65 <=? n8 c) && (n8 c <=? 90).
+
+Lemma map_fix_in {A} (f : A -> A) l : map f l = l -> forall x, In x l -> f x = x.
+Proof.
+  induction l as [|a l IH]; intros E x Hx; [destruct Hx|]. cbn [map] in E. inversion E as [[E1 E2]].
+  destruct Hx as [<-|Hx]; [exact E1 | rewrite E1, E2; apply IH; assumption].
+Qed.
+
+Lemma upper_letter_moves c : is_upper_letter c = true -> to_lower c <> c.
+Proof. destruct c; cbn; intro H; try discriminate H; discriminate. Qed.
+Lemma lower_letter_moves c : is_lower_letter c = true -> to_upper c <> c.
+Proof. destruct c; cbn; intro H; try discriminate H; discriminate. Qed.
+
+(* any string containing both a lower-case and an upper-case letter is rejected *)
+Theorem mixed_case_rejected s a b : In a s -> is_lower_letter a = true -> In b s -> is_upper_letter b = true ->
+  decode s = DErr.
+Proof.
+  intros Ha La Hb Ub. unfold decode. rewrite decode_generic_unfold.
+  destruct (len_bad s); [reflexivity|]. destruct (negb (forallb char_ok s)); [reflexivity|].
+  assert (C : case_bad s = true); [|rewrite C; reflexivity].
+  unfold case_bad. apply andb_true_iff; split; apply negb_true_iff.
+  - destruct (bytes_eqb s (map to_lower s)) eqn:E; [|reflexivity]. apply bytes_eqb_eq in E.
+    exfalso. apply (upper_letter_moves b Ub). apply (map_fix_in to_lower s); [symmetry; exact E | exact Hb].
+  - destruct (bytes_eqb s (map to_upper s)) eqn:E; [|reflexivity]. apply bytes_eqb_eq in E.
+    exfalso. apply (lower_letter_moves a La). apply (map_fix_in to_upper s); [symmetry; exact E | exact Ha].
+Qed.
